@@ -12,6 +12,7 @@ per-qudit timelines, block widths, barrier-like operations top-level).
 """
 from __future__ import annotations
 
+import gc
 import itertools
 import os
 from typing import Any
@@ -203,6 +204,24 @@ def _work(item: tuple) -> dict:
     return agg
 
 
+def _interleave(items: list) -> list:
+    """Round-robin over families, keeping each family's own order."""
+    groups: dict[str, list] = {}
+    for it in items:
+        groups.setdefault((it[0], it[1]), []).append(it)   # (family, width)
+    out = []
+    queues = list(groups.values())
+    i = 0
+    while queues:
+        q = queues[i % len(queues)]
+        out.append(q.pop(0))
+        if not q:
+            queues.remove(q)
+        else:
+            i += 1
+    return out
+
+
 def _items(family: str, n: int, seqs: list, stagess: list, seed: int,
            target: int = 400) -> list:
     if not seqs or not stagess:
@@ -237,7 +256,8 @@ def plan(ctx: Ctx) -> list:
     # F3: already-blocked input (pipelines of two partitioners)
     if q:
         items += _items('blocked-input', 3, sequences(3, 3, 'gates'),
-                        pipe_lists(3, PIPES[:1] + PIPES[2:3], sq), seed)
+                        pipe_lists(3, PIPES[:1] + PIPES[2:3],
+                                   [(2, 3), (3, 2)]), seed)
         items += _items('blocked-input', 4, sequences(4, 2, 'gates'),
                         pipe_lists(4, PIPES, [(2, 3), (3, 2)]), seed)
         items += _items('blocked-input-pseudo', 2, sequences(2, 3, 'pseudo'),
@@ -285,8 +305,10 @@ def plan_long(ctx: Ctx) -> list:
                         st_aware + st_other + [[['greedy', 3]],
                                                [['cluster', 3]]],
                         ctx.seed, 20)
+        second_base = q and base is not bases[0][1]
         items += _items('long', n, deviations(base, gate_alpha, 1),
-                        st_aware + st_other, ctx.seed, 60)
+                        st_aware[:2] if second_base else st_aware + st_other,
+                        ctx.seed, 60)
         items += _items('long', n, deviations(base, ps_alpha, 1),
                         st_aware, ctx.seed, 60)
         if not q and n == 6:
@@ -301,6 +323,8 @@ def plan_long(ctx: Ctx) -> list:
 
 def run(ctx: Ctx) -> None:
     ctx.max_reported = 20        # one line per distinct defect
+    gc.collect()
+    gc.freeze()                  # keep the forked workers' pages shared
     budget = (75 if ctx.quick else 1500) * float(
         os.environ.get('VERIF_BUDGET_SCALE', '1'))   # development aid
     items = plan(ctx)
@@ -316,45 +340,51 @@ def run(ctx: Ctx) -> None:
     per: dict[str, dict] = {}
     planned = {'small': len(items), 'long': len(litems)}
     done = {'small': 0, 'long': 0}
-    small_deadline = ctx.t0 + budget * (0.6 if ctx.quick else 0.5)
-    for group, its, deadline in (
-        ('small', items, small_deadline), ('long', litems, ctx.t0 + budget),
-    ):
-        for agg in pmap(_work, its, procs=ctx.procs, deadline=deadline):
-            done[group] += 1
-            ctx.cov['evaluations'] += agg['runs']
-            ctx.cov['distinct_nontrivial'] += agg['nontrivial']
-            f = fam.setdefault(agg['family'], {'runs': 0, 'nontrivial': 0})
-            f['runs'] += agg['runs']
-            f['nontrivial'] += agg['nontrivial']
-            ctx.add('surround_calls_with_bounding_region', agg['bounded'])
-            ctx.add('surround_results_outside_bounding_region',
-                    agg['escaped'])
-            for k, v in agg['outcomes'].items():
-                ctx.outcomes[k] += v
-            for p, d in agg['per'].items():
-                t = per.setdefault(p, {})
-                for k, v in d.items():
-                    t[k] = t.get(k, 0) + v
-            if agg['sample'] is not None and agg['family'] in (
-                    'gates', 'pseudo-aware', 'blocked-input', 'long'):
-                if sum(1 for s in ctx.cov['samples']
-                       if s.get('family') == agg['family']) < 2:
-                    ctx.sample(dict(agg['sample'], family=agg['family']), 8)
-            for sig, (rank, what, rep, cnt) in agg['fails'].items():
-                cur = fails.get(sig)
-                if cur is None:
-                    fails[sig] = [tuple(rank), what, rep, cnt]
-                else:
-                    cur[3] += cnt
-                    if tuple(rank) < cur[0]:
-                        cur[0], cur[1], cur[2] = tuple(rank), what, rep
-        if done[group] < len(its):
-            ctx.cap(
-                f'{group} families: time cap after {done[group]} of '
-                f'{len(its)} work items (canonical shortest-first order, '
-                'unordered completion)',
-            )
+    # one deadline; families advance side by side (each simplest-first), so
+    # a time cap leaves every family with a completed prefix
+    order = _interleave(items + litems)
+    for agg in pmap(_work, order, procs=ctx.procs, deadline=ctx.t0 + budget):
+        group = 'long' if agg['family'].startswith('long') else 'small'
+        done[group] += 1
+        ctx.cov['evaluations'] += agg['runs']
+        ctx.cov['distinct_nontrivial'] += agg['nontrivial']
+        f = fam.setdefault(agg['family'], {'runs': 0, 'nontrivial': 0,
+                                           'work_items_done': 0})
+        f['runs'] += agg['runs']
+        f['nontrivial'] += agg['nontrivial']
+        f['work_items_done'] += 1
+        ctx.add('surround_calls_with_bounding_region', agg['bounded'])
+        ctx.add('surround_results_outside_bounding_region', agg['escaped'])
+        for k, v in agg['outcomes'].items():
+            ctx.outcomes[k] += v
+        for p, d in agg['per'].items():
+            t = per.setdefault(p, {})
+            for k, v in d.items():
+                t[k] = t.get(k, 0) + v
+        if agg['sample'] is not None and agg['family'] in (
+                'gates', 'pseudo-aware', 'blocked-input', 'long'):
+            if sum(1 for s in ctx.cov['samples']
+                   if s.get('family') == agg['family']) < 2:
+                ctx.sample(dict(agg['sample'], family=agg['family']), 8)
+        for sig, (rank, what, rep, cnt) in agg['fails'].items():
+            cur = fails.get(sig)
+            if cur is None:
+                fails[sig] = [tuple(rank), what, rep, cnt]
+            else:
+                cur[3] += cnt
+                if tuple(rank) < cur[0]:
+                    cur[0], cur[1], cur[2] = tuple(rank), what, rep
+    if sum(done.values()) < len(order):
+        per_family: dict[str, int] = {}
+        for it in order:
+            per_family[it[0]] = per_family.get(it[0], 0) + 1
+        ctx.cap(
+            f'time cap after {sum(done.values())} of {len(order)} work '
+            'items; families advance side by side in canonical '
+            'shortest-first order; completed/planned items per family: '
+            + ', '.join(f'{k}={fam.get(k, {}).get("work_items_done", 0)}/{v}'
+                        for k, v in sorted(per_family.items())),
+        )
     for name, d in sorted(fam.items()):
         ctx.part('family:' + name, **d)
     for name, d in sorted(per.items()):
